@@ -159,6 +159,12 @@ func ParsePodNetworkAnnotation(podNetworks string) ([]*NetworkSelectionElement, 
 			return nil, fmt.Errorf("parsePodNetworkAnnotation: failed to parse pod Network Attachment Selection "+
 				"Annotation JSON format: %v", err)
 		}
+		for i := range networks {
+			if networks[i] == nil {
+				// e.g. [null]
+				return nil, fmt.Errorf("parsePodNetworkAnnotation: network %d is null", i)
+			}
+		}
 	} else {
 		// Comma-delimited list of network attachment object names
 		for _, item := range strings.Split(podNetworks, ",") {
